@@ -3,23 +3,24 @@
    pkg/sql/tokenizer/tokenizer.go) over the lexical tables regenerated from the current source (Gen/LexTables.v);
    the reference lexical grammar is Spec/LexSpec.v.
 
-   FULL-STRENGTH STATEMENT, proved here for the staged class list below:
+   FULL-STRENGTH STATEMENT, proved here for every lexeme class of the reference grammar:
      lex_faithful : forall ls seps, wf ls seps -> (the text fits the two limits) ->
         tokenize (interleave ls seps) = Val (toks, cms) with
           reading toks = map tok_norm ls ++ [EOF]          (kinds, decoded values, quote marks; exactly one end marker)
           map com_key cms = comments_of seps              (each comment once, exact text and style)
      and in raw form (C04_lex_faithful_raw) the exact token list with byte spans and the exact comment records;
-     corollaries C04_layout_independent, C04_keyword_case_independent, C04_token_limit_iff, C04_quoted_distinct.
+     corollaries C04_layout_independent, C04_keyword_case_independent, C04_token_limit_iff; C04_quoted_distinct.
    [reading] is the kind/value/quote sequence after a two-word keyword token (GROUP BY read across plain white space
    as ONE raw token by the tokenizer) is split into its words and keyword spellings are upper-cased: that is the
    stream the parser consumes (design/C04.md).
-   Lexeme classes inside wf (Spec/LexSpec.v [lexeme]): operators and punctuation (all 43 of all_ops), bare @, bare $,
-   numbers (integer, decimal, exponent forms), words (identifiers incl. Unicode, keywords, the two-word keyword
-   look-ahead), $n and @name parameters, single-quoted strings (doubled quotes, every backslash escape, typographic
-   quotes), double-quoted identifiers (also typographic), back-ticked identifiers, dollar-quoted strings (with and
-   without tag).  Separators: white-space bytes, line comments (ended by LF or end of text), block comments.
-   The names carry _partial because ONE class of the tokenizer is outside wf: triple-quoted strings (three single quotes);
-   for it only totality, shape and the correspondence/oracles apply. *)
+   Lexeme classes inside wf (Spec/LexSpec.v [lexeme]; this is the whole list of token readers of the tokenizer):
+   operators and punctuation (all 43 entries of all_ops), bare @, bare $, numbers (integer, decimal, exponent forms),
+   words (identifiers incl. Unicode, keywords, the two-word keyword look-ahead), $n and @name parameters,
+   single-quoted strings (doubled quotes, every backslash escape, typographic quotes), double-quoted identifiers (also
+   typographic), back-ticked identifiers, dollar-quoted strings (with and without tag), triple-quoted strings.
+   Separators: white-space bytes, line comments (ended by LF or end of text), block comments.
+   Outside the grammar (so outside the theorem, covered by totality/shape and the correspondence only): texts with
+   invalid UTF-8 inside words or quoted literals, a bare $ directly followed by a word, malformed input. *)
 From Coq Require Import List NArith Bool.
 From GV Require Import Gen.LexTables Model.Lexer Inst.Inst_C04 Spec.LexSpec Proofs.LexerP Proofs.LexSpecP Proofs.LexSepP
   Proofs.LexMunchP Proofs.LexWordP Proofs.LexFaithP Proofs.LexNormP.
@@ -55,8 +56,8 @@ Theorem C04_size_limit_exact :
   tokenize_with m1 max_tok bs = tokenize_with m2 max_tok bs.
 Proof. exact size_limit_exact. Qed.
 
-(* token limit (partial: the bound; "more tokens than the limit => E1007" is explored on the implementation by C02) *)
-Theorem C04_token_limit_partial :
+(* token limit, the bound (the equivalence is C04_token_limit_iff below) *)
+Theorem C04_token_limit_bound :
   forall max_in max_tok bs toks cms, tokenize_with max_in max_tok bs = Val (toks, cms) ->
   N.of_nat (length toks) <= max_tok + 1.
 Proof. exact token_limit_bound. Qed.
@@ -89,7 +90,7 @@ Proof. exact (conj munch_all munch_word). Qed.
 
 (* faithful reading, raw form: the exact token list (kinds, decoded values, quote marks, byte spans), one end marker
    at the end of the text, the exact comment records *)
-Theorem C04_lex_faithful_raw_partial :
+Theorem C04_lex_faithful_raw :
   forall max_in max_tok ls seps, wf ls seps ->
   N.of_nat (length (interleave ls seps)) <= max_in -> N.of_nat (length (raw_tokens ls seps)) <= max_tok ->
   tokenize_with max_in max_tok (interleave ls seps) =
@@ -98,7 +99,7 @@ Proof. exact lex_faithful_raw. Qed.
 
 (* faithful reading: kinds and decoded values of the lexemes in source order, then exactly one end marker; each
    comment captured once with its exact text *)
-Theorem C04_lex_faithful_partial :
+Theorem C04_lex_faithful :
   forall max_in max_tok ls seps, wf ls seps -> fits max_in max_tok ls seps ->
   exists toks cms, tokenize_with max_in max_tok (interleave ls seps) = Val (toks, cms) /\
                    reading toks = map tok_norm ls ++ [eof_rtok] /\ map com_key cms = comments_of seps.
@@ -111,7 +112,7 @@ Theorem C04_raw_reading :
 Proof. exact raw_reading. Qed.
 
 (* changing only the white space and comments between the lexemes never changes the sequence of kinds and values *)
-Theorem C04_layout_independent_partial :
+Theorem C04_layout_independent :
   forall max_in max_tok ls seps1 seps2,
   wf ls seps1 -> wf ls seps2 -> fits max_in max_tok ls seps1 -> fits max_in max_tok ls seps2 ->
   exists t1 c1 t2 c2,
@@ -120,7 +121,7 @@ Theorem C04_layout_independent_partial :
 Proof. exact layout_independent. Qed.
 
 (* ... nor does changing the letter case of keywords *)
-Theorem C04_keyword_case_independent_partial :
+Theorem C04_keyword_case_independent :
   forall max_in max_tok ls ls' seps seps',
   Forall2 case_variant ls ls' -> wf ls seps -> wf ls' seps' ->
   fits max_in max_tok ls seps -> fits max_in max_tok ls' seps' ->
@@ -131,7 +132,7 @@ Proof. exact keyword_case_independent. Qed.
 
 (* the token limit as an equivalence: E1007 exactly when the text has more raw tokens than the limit; a text with
    exactly max_tok tokens is not rejected for that reason *)
-Theorem C04_token_limit_iff_partial :
+Theorem C04_token_limit_iff :
   forall max_in max_tok ls seps, wf ls seps -> N.of_nat (length (interleave ls seps)) <= max_in ->
   ((exists l c, tokenize_with max_in max_tok (interleave ls seps) = Err E_TokenLimitReached l c) <->
    max_tok < N.of_nat (length (raw_tokens ls seps))).
@@ -150,16 +151,16 @@ Print Assumptions C04_exactly_one_eof.
 Print Assumptions C04_tokenize_shape.
 Print Assumptions C04_size_limit.
 Print Assumptions C04_size_limit_exact.
-Print Assumptions C04_token_limit_partial.
+Print Assumptions C04_token_limit_bound.
 Print Assumptions C04_comments_captured.
 Print Assumptions C04_sep_skip.
 Print Assumptions C04_munch.
-Print Assumptions C04_lex_faithful_raw_partial.
-Print Assumptions C04_lex_faithful_partial.
+Print Assumptions C04_lex_faithful_raw.
+Print Assumptions C04_lex_faithful.
 Print Assumptions C04_raw_reading.
-Print Assumptions C04_layout_independent_partial.
-Print Assumptions C04_keyword_case_independent_partial.
-Print Assumptions C04_token_limit_iff_partial.
+Print Assumptions C04_layout_independent.
+Print Assumptions C04_keyword_case_independent.
+Print Assumptions C04_token_limit_iff.
 Print Assumptions C04_quoted_distinct.
 
 (* the hypotheses are satisfiable by concrete non-trivial inputs: SELECT 'a''b' -- c   and   a <@ b /* x */ *)
